@@ -273,6 +273,19 @@ func c14Grid(t *testing.T, tier string, shard, shards int, c *h.Collector) {
 		w.ViewNodes = append(w.ViewNodes, n)
 		c.Nontrivial(fmt.Sprint("node/", i))
 	}
+	// a correctly labelled node that is being deleted (deletion timestamp set, held by a finalizer) is
+	// still a node of the group
+	{
+		past := metav1.NewTime(metav1.Now().Add(-10 * 60 * 1e9))
+		n := &v1.Node{ObjectMeta: metav1.ObjectMeta{Name: "n-terminating", Labels: map[string]string{c14Key: c14Val}, DeletionTimestamp: &past, Finalizers: []string{"example.com/hold"}}}
+		c.R.Evaluations++
+		if !nodeF(n) {
+			report("C14/node", "a labelled node with a deletion timestamp is not a member", "terminating")
+		}
+		expectNodes = append(expectNodes, n.Name)
+		w.ViewNodes = append(w.ViewNodes, n)
+		c.Nontrivial("node/terminating")
+	}
 	// the same through the filtered listers
 	opts := controller.NodeGroupOptions{Name: "shared", LabelKey: c14Key, LabelValue: c14Val}
 	lg := controller.NewNodeGroupLister(sim.PodLister{W: w}, sim.NodeLister{W: w}, opts)
